@@ -30,6 +30,8 @@ def guard_text(g, sites, top=True, parent=None):
 
 
 def generate(spec):
+    import copy
+    spec = copy.deepcopy(spec)
     ix = Index(spec)
     m = spec['root']
     assert not any(s['kind'] != 'simple' for s in m['states'].values()), 'flat machines only'
